@@ -7,6 +7,7 @@ From Coq Require Import List ZArith Bool Lia.
 Import ListNotations.
 From TI Require Import model.Iter model.IterSpec proofs.IterProofs proofs.IterProofs2
      proofs.IterCacheProofs proofs.IterExamples.
+From TI Require model.ImgIter model.ImgIterSpec proofs.ImgIterProofs.
 Open Scope Z_scope.
 
 (** for a deterministic renderable ([render_det]: the result of [_render_] depends on the
@@ -59,3 +60,19 @@ Theorem C09_animate_cache :
   forall loops c, animate_cache loops c = if loops =? 1 then CBool false else c.
 Proof. exact animate_cache_rule. Qed.
 Print Assumptions C09_animate_cache.
+
+(** *** the image-iterator half ([ImageIterator._animate], model [model/ImgIter.v], tied to the
+    code by C11's correspondence): with and without the frame cache the caller sees the same
+    trace — frames, image position, pass countdown, errors — for every renderer, frame count,
+    repeat count, starting frame, and EVERY history of next / seek / image-size change / close /
+    drop, provided the size hash (Python's [hash] of the rendered size, which keys the cache)
+    separates the sizes that occur *)
+Theorem C09_imgiter_cache_transparent :
+  forall (Str Size : Type) (fmt_frame : nat -> Size -> TI.model.ImgIter.res Str) (hash : Size -> Z) (N : nat)
+         (repeat pos0 : Z) (z0 : Size) (ops : list (TI.model.ImgIter.op Size)),
+    TI.model.ImgIterSpec.renderer_ok fmt_frame N -> repeat <> 0%Z ->
+    TI.model.ImgIterSpec.hash_separates hash (TI.model.ImgIterSpec.sizes_of z0 ops) ->
+    TI.model.ImgIter.trace fmt_frame hash N true (TI.model.ImgIter.init Str repeat pos0 z0) ops =
+    TI.model.ImgIter.trace fmt_frame hash N false (TI.model.ImgIter.init Str repeat pos0 z0) ops.
+Proof. exact TI.proofs.ImgIterProofs.imgiter_cache_transparent. Qed.
+Print Assumptions C09_imgiter_cache_transparent.
